@@ -72,7 +72,9 @@ class Protocol(object):
     # -- sort_params: which kind lands at which position ----------------------
     def _sort_params(self):
         fi = self.repo.func(SIG + ':sort_params')
-        it = Interp(self.repo, Policy(inline=None))
+        # a private helper the classification was moved into is read in place
+        it = Interp(self.repo, Policy(inline=lambda f_, d_, n_: f_.module.name == SIG and f_.cls is None and f_.name.startswith('_')
+                                      and f_.name not in ('_upgrade_parameters_with_warning',) and d_ < 2))
         paths = it.run(fi)
         self.sort_interp = it
         self.sort_paths = paths
